@@ -87,7 +87,8 @@ Walk(fr, rs, fi, ri, how, cut, at) ==
         ELSE Res({"C18", "C09"}, "incomplete.frame.answered")
     ELSE IF cls = "oversize" THEN
         IF have /\ rs[ri].st = 3 THEN Walk(fr, rs, fi + 1, ri + 1, how, cut, nxt)
-        ELSE Res({"C13"}, "oversize.bad")
+        \* (an oversized body that is not refused has been buffered: the connection's memory bound of C10 is gone too)
+        ELSE Res({"C13", "C10"}, "oversize.bad")
     ELSE IF have /\ rs[ri].st = 3 THEN Res({"C13"}, "toolarge.within.limit")
     ELSE IF cls = "canonical" /\ oc = "quit" THEN
         IF f.op = 7 THEN (IF have /\ rs[ri].st = 0 /\ ri = Len(rs) /\ how \in {"eof", "reset"} THEN ResAt("quit", fi) ELSE Res({"C12"}, "quit.bad"))
